@@ -7,6 +7,8 @@ host   = reg-name | IPv4 | "[" IPv6 "]"
 
 def parse(url):
     """returns ("ok", host, port, resource, secure) | ("invalid", reason) | ("dontcare", reason)"""
+    if any(ord(c) < 0x21 or ord(c) > 0x7e for c in url):
+        return ("dontcare", "blank, control or non-ASCII character in the URL")
     i = url.find(":")
     if i < 0:
         return ("invalid", "no scheme separator")
